@@ -34,4 +34,5 @@ pub mod verif {
     pub use crate::messages::{Timeout, Vote};
     pub use crate::proposer::{Proposer, ProposerMessage};
     pub use crate::synchronizer::Synchronizer;
+    pub use crate::timer::Timer;
 }
